@@ -1,9 +1,9 @@
 from props import tu, run
 
 SRC = "harness/c05_pixel_pairing.cpp"
-NPARTS = 11
+NPARTS = 14
 # cases per part (one per model + one per ordered pair + binding cases); the same in both tiers
-CASES = [78, 76, 80, 85, 84, 96, 56, 56, 56, 56, 23]   # part 10: every route to a planar pixel (iterators, &ref / &pixel pointers, const conversions)
+CASES = [78, 76, 80, 85, 84, 96, 56, 56, 56, 56, 23, 57, 99, 60]   # part 10: every route to a planar pixel (iterators, &ref / &pixel pointers, const conversions)
 
 CFG = dict(
     level="exploration",
@@ -42,5 +42,6 @@ CFG = dict(
         + [run("c05_native%d" % k, shards={"quick": 2, "thorough": 4}, min_cases={"quick": CASES[k], "thorough": CASES[k]},
                secondary=True, tiers=("thorough",)) for k in range(NPARTS)],
     require_obs=["pair.rgba.u8", "pair.rgba.packed4444", "pair.rgba.packed5551", "pair.rgb.packed565", "pair.cmyk.u8", "pair.devicen5.u8",
-                 "model.rgba.f32", "model.rgb.packed123", "planar-access.view", "planar-access.ptr-from-pixel"],
+                 "model.rgba.f32", "model.rgb.packed123", "planar-access.view", "planar-access.ptr-from-pixel",
+                 "compat-table.compatible", "compat-table.incompatible", "convert.rescale", "convert.same-channel-types", "pair.rgb.packed234", "pair.rgba.packed1234"],
 )
